@@ -60,7 +60,7 @@ Theorem C04_field_types_partial :
      exists f n, strip i = UInt f n /\ n < 2 ^ w /\ v = VUInt n) /\
   (forall i v, dec_s SBool i = Some v -> is_nil (strip i) = false ->
      exists b : bool, strip i = Simple Fimm (if b then 21 else 20) /\ v = VBool b) /\
-  (forall i v, dec_s SBytes i = Some v -> is_nil (strip i) = false ->
+  (forall i v, dec_s SBytes i = Some v -> is_nil (strip i) = false -> is_arr (strip i) = false ->
      exists bs, v = VBytes bs /\ ((exists f, strip i = BStr f bs) \/ (exists cs, strip i = BStrI cs /\ bs = flat_map snd cs))) /\
   (forall i v, dec_s SText i = Some v -> is_nil (strip i) = false ->
      exists bs, v = VText bs /\ ((exists f, strip i = TStr f bs) \/ (exists cs, strip i = TStrI cs /\ bs = flat_map snd cs))).
@@ -82,8 +82,28 @@ Theorem C04_field_types_refuted :
   dec_s (SStruct [SUInt 8; SUInt 16]) (Arr (Some Fimm) [UInt Fimm 0; Tag Fimm 2 (BStr Fimm [5])]) = Some (VStruct [VUInt 0; VUInt 5]) /\
   dec_s (SStruct [SUInt 8; SUInt 16]) (Arr (Some Fimm) [UInt Fimm 0; Tag F1 24 (UInt Fimm 5)]) = Some (VStruct [VUInt 0; VUInt 5]) /\
   dec_s (SStruct [SUInt 8; SPoint; SStruct [SPoint; SUInt 64]]) (Arr (Some Fimm) [UInt Fimm 3; Arr (Some Fimm) []; Simple Fimm 22])
-    = Some (VStruct [VUInt 3; VOrigin; VStruct [VOrigin; VUInt 0]]).
+    = Some (VStruct [VUInt 3; VOrigin; VStruct [VOrigin; VUInt 0]]) /\
+  dec_s (SStruct [SUInt 8; SBytes]) (Arr (Some Fimm) [UInt Fimm 7; Arr (Some Fimm) [UInt Fimm 1; UInt Fimm 2; UInt F1 255]])
+    = Some (VStruct [VUInt 7; VBytes [1; 2; 255]]).
 Proof. conj_vc. Qed.
+
+(* ... but NOT inside a chain point: the hand-written point decoder takes a
+   plain unsigned integer and a byte string only.  null / undefined / simple
+   value / bignum / any tag in the slot position and null / undefined / array
+   of integers / any tag in the hash position are rejected (instances of
+   C04_point; the harness feeds exactly these to every point-carrying message
+   and a message that accepts one is reported under
+   malformed-accepted:coerce:point:<kind>, which is not a listed finding). *)
+Theorem C04_point_no_coercion : forall f g n h bad,
+  In bad [Simple Fimm 22; Simple Fimm 23; Simple Fimm 16; Tag Fimm 2 (BStr Fimm [5]); Tag F1 24 (UInt Fimm 5);
+          Tag Fimm 1 (UInt Fimm 5); Arr (Some Fimm) [UInt Fimm 1; UInt Fimm 2]; Arr (Some Fimm) [];
+          Tag F1 24 (BStr g h); Tag Fimm 2 (BStr g h)] ->
+  dec_s SPoint (Arr f [bad; BStr g h]) = None /\ dec_s SPoint (Arr f [UInt g n; bad]) = None.
+Proof.
+  intros f g n h bad H. cbn [In] in H.
+  repeat (destruct H as [<-|H]; [split; reflexivity|]). destruct H.
+Qed.
+Print Assumptions C04_point_no_coercion.
 
 (* non-vacuity: a chain-sync RollBackward with a real point and tip *)
 Example C04_roundtrip_ex :
